@@ -306,4 +306,78 @@ def indexOfLiteralAfterLoop (lower : Nat → Nat) (l : Finders.LitAfterLoop) (te
   else if decide (l.chars.length > 0) then absIdx searchStart (indexOfAny search l.chars)
   else absIdx searchStart (indexOfAny1 search l.char)
 
+/-! ### the searching finders of `runner.go` with their helper calls spelled out
+
+`Model/Finders.lean` writes `findUp <test> …` where the Go code calls a helper on `r.Runtext[searchStart:]` and
+adds `searchStart` to a non-negative answer.  The definitions below are the same finders with the call itself
+(`Lemmas/IndexOf.lean` proves them EQUAL to the ones of `Model/Finders.lean`, position by position). -/
+
+open RegexVerif.Finders in
+/-- the search of `findLeadingStringLeftToRight` -/
+def leadingStringSearch (lower : Nat → Nat) (pat : List Nat) (ignoreCase : Bool) (search : List Nat) : Option Int :=
+  if ignoreCase then
+    (if isAscii pat then indexOfIgnoreCaseAscii search pat else indexOfIgnoreCase lower search pat)
+  else indexOf search pat
+
+open RegexVerif.Finders in
+/-- `findLeadingStringLeftToRight(r, prefix, ignoreCase)` -/
+def finderLeadingStringIx (lower : Nat → Nat) (pat : List Nat) (ignoreCase : Bool) (text : List Nat)
+    (minLen pos : Nat) : Bool × Nat :=
+  let n := text.length
+  if pat.isEmpty then (true, pos)
+  else
+    match absIdx pos (leadingStringSearch lower pat ignoreCase (text.drop pos)) with
+    | none => (false, n)
+    | some start => if hasLen minLen n start then (true, start) else (false, n)
+
+open RegexVerif.Finders in
+/-- `findFixedDistanceCharLeftToRight(r, ch, distance)` -/
+def finderFixedCharIx (c d : Nat) (text : List Nat) (minLen pos : Nat) : Bool × Nat :=
+  let n := text.length
+  ltrResult n (searchLoop (fun s => decide (s < n))
+    (fun s => absIdx s (indexOfAny1 (text.drop s) c))
+    (fixedStep d n minLen pos) (n + 1) (pos + d))
+
+open RegexVerif.Finders in
+/-- `findFixedDistanceStringLeftToRight(r, literal, distance)` -/
+def finderFixedStringIx (lit : List Nat) (d : Nat) (text : List Nat) (minLen pos : Nat) : Bool × Nat :=
+  let n := text.length
+  if lit.isEmpty then (true, pos)
+  else
+    ltrResult n (searchLoop (fun s => decide (s + lit.length ≤ n))
+      (fun s => absIdx s (indexOf (text.drop s) lit))
+      (fixedStep d n minLen pos) (n + 1) (pos + d))
+
+open RegexVerif.Finders in
+/-- `findFixedDistanceSetsLeftToRight(r, sets)` -/
+def finderFixedSetsIx (sets : List FDSet) (text : List Nat) (minLen pos : Nat) : Bool × Nat :=
+  let n := text.length
+  match sets with
+  | [] => (false, pos)
+  | primary :: _ =>
+    if primary.set.isNone then (false, pos)
+    else
+      ltrResult n (searchLoop (fun s => decide (s < n))
+        (fun s => absIdx s (indexOfSet (text.drop s) primary))
+        (fun i =>
+          let start := i - primary.distance
+          if decide (n < start + minLen) then .giveUp
+          else if decide (pos ≤ start) && hasLen minLen n start && fixedSetsMatchAt sets text start then .found start
+          else .next)
+        (n + 1) (pos + primary.distance))
+
+open RegexVerif.Finders in
+/-- `findLiteralAfterLoopLeftToRight(r, literal)` -/
+def finderLiteralAfterLoopIx (lower : Nat → Nat) (l : LitAfterLoop) (text : List Nat) (minLen pos : Nat) : Bool × Nat :=
+  let n := text.length
+  match l.loopSet with
+  | none => (false, pos)
+  | some S =>
+    ltrResult n (searchLoop (fun s => decide (s < n))
+      (fun s => indexOfLiteralAfterLoop lower l text s)
+      (fun i =>
+        let start := walkBack S text pos i
+        if hasLen minLen n start then .found start else .next)
+      (n + 1) pos)
+
 end RegexVerif.IndexOf
